@@ -278,6 +278,10 @@ def check(chk):
                         good = (isinstance(nxt, ast.AugAssign) and isinstance(nxt.op, ast.Add) and src(nxt.target) == cur and src(nxt.value) == width) or \
                             (isinstance(nxt, ast.Assign) and len(nxt.targets) == 1 and src(nxt.targets[0]) == cur and
                              (src(nxt.value) in ('%s + %s' % (cur, width), '%s + %s' % (width, cur)) or (endname is not None and src(nxt.value) == endname)))
+                        if not good and endname is not None:
+                            # the cursor was advanced first (E = start + W) and the slice reads [start:E]: E is the cursor if other reads start from it
+                            good = any(isinstance(x_, ast.Subscript) and isinstance(x_.slice, ast.Slice) and isinstance(x_.slice.lower, ast.Name) and x_.slice.lower.id == endname and x_ is not sub
+                                       for x_ in ast.walk(fn)) and not (isinstance(nxt, (ast.Assign, ast.AugAssign)) and any(src(t_) == endname for t_ in (nxt.targets if isinstance(nxt, ast.Assign) else [nxt.target])))
                         n_cursor += 1
                         chk.judge(good, 'C01.cursor', st, '%s.%s: %s then %s advanced by %s' % (c.name, name, src(sub), cur, width),
                                   'after reading %s the cursor is not advanced by %s (next statement: %s)' % (src(sub), width, src(nxt)[:60] if nxt is not None else 'end of block'))
